@@ -675,6 +675,73 @@ def gen(rng, tier):
         c.append("fmap " + hexs(t))
         st["fmap"] += 1
     cases.append(c)
+    # --- extension: Range values through the file branch of serve() (model: rangeAnswer = rangeArgs9 + C10's rangeOf)
+    c = []
+    st["rng"] = 0
+    nums = [b"", b"0", b"1", b"3", b"4", b"5", b"9", b"35", b"36", b"37", b"100", b"007", b"+5", b" 5", b"5 ", b"5x", b"x5", b"0x10",
+            b"2147483647", b"2147483648", b"4294967296", b"4294967301", b"9223372036854775807", b"9223372036854775808",
+            b"123456789012345678", b"1234567890123456789", b"99999999999999999999", b"000000000000000000005"]
+    def rspec():
+        r = rng.random()
+        if r < 0.45:
+            return rng.choice(nums) + b"-" + rng.choice(nums)
+        if r < 0.6:
+            return rng.choice(nums)
+        if r < 0.7:
+            return b"-".join(rng.choice(nums) for _ in range(rng.randrange(3, 5)))
+        if r < 0.8:
+            return rng.choice([b"", b"-", b"--", b"-0", b"0-", b"0-0", b"-36", b"-37", b"-4", b"35-35", b"36-36"])
+        return bytes(rng.choice(b"0123456789-+ ,=x\x00\t\xff") for _ in range(rng.randrange(0, 12)))
+    for i in range(1500 if quick else 20000):
+        r = rng.random()
+        if r < 0.8:
+            v = b"bytes=" + rspec()
+        elif r < 0.9:
+            v = rng.choice([b"bytes", b"bytes =1-2", b"Bytes=1-2", b"items=1-2", b"bytes=1-2,4-5", b"bytes=1-2, 4-5", b"byte=1", b"", b"bytes=1-2\x00,3"]) 
+        else:
+            v = bytes(x for x in mutate(rng, b"bytes=" + rspec()) if x not in (10, 13))
+        c.append("rng %d %s" % (rng.randrange(3), hexs(v)))
+        st["rng"] += 1
+        if len(c) == 100:
+            cases.append(c)
+            c = []
+    if c:
+        cases.append(c)
+    # --- extension: Upgrade hand-off, request head and first frame bytes in one segment (model: upgradeHandOff)
+    c = []
+    st["upg"] = 0
+    for i in range(400 if quick else 5000):
+        hs = [b"Host: h"]
+        r = rng.random()
+        hs.append(b"Upgrade: websocket" if r < 0.75 else rng.choice([b"Upgrade: WebSocket", b"Upgrade: websocket2", b"Upgrade: h2c", b"upgrade: websocket",
+                                                                      b"UPGRADE:websocket", b"Upgrade: websocket ", b"X-Upgrade: websocket"]))
+        if rng.random() < 0.8:
+            hs.append(rng.choice([b"Connection: Upgrade", b"Connection: keep-alive, Upgrade", b"Connection: upgrade", b"Connection: close"]))
+        if rng.random() < 0.8:
+            hs.append(b"Sec-WebSocket-Key: dGhlIHNhbXBsZSBub25jZQ==")
+        if rng.random() < 0.2:
+            hs.append(b"Sec-WebSocket-Protocol: chat")
+        body = b""
+        if rng.random() < 0.15:
+            body = rtoken(rng, rng.randrange(1, 9))
+            hs.append(b"Content-Length: %d" % len(body))
+        rng.shuffle(hs)
+        head = rng.choice([b"GET", b"GET", b"POST"]) + b" " + (rtarget(rng) if rng.random() < 0.3 else b"/chat") + b" HTTP/1.1\r\n" + b"\r\n".join(hs) + b"\r\n\r\n" + body
+        r = rng.random()
+        if r < 0.1:
+            head = head[:rng.randrange(len(head))]
+        elif r < 0.2:
+            head = mutate(rng, head)
+        n = rng.choice([0, 1, 2, 6, 7, 11, 40, 200])
+        frame = (bytes([0x81, 0x80 | min(n, 125)]) + bytes(rng.randrange(256) for _ in range(4 + min(n, 125))))[:max(n, 0) + 6] if n and rng.random() < 0.6 \
+            else bytes(rng.randrange(256) for _ in range(n))
+        c.append("upg %s %s" % (hexs(head), hexs(frame)))
+        st["upg"] += 1
+        if len(c) == 50:
+            cases.append(c)
+            c = []
+    if c:
+        cases.append(c)
     GEN_STATS.clear()
     GEN_STATS.update(st)
     return cases
